@@ -41,6 +41,9 @@ type unitSpec struct {
 	// bits of an assumed field are then the bits of the constant
 	encConst map[string]uint64
 	encLens  map[string]int64
+	// tails: variable-length runs the encoder copies opaquely (texts, extension octets, application data):
+	// "<offset>: <field>", the offset as an affine expression of list lengths as the bit engine prints it
+	tails []string
 	// encLayout: the layout as the encoder must produce it, where it says more than the decoder's view
 	// (a bit the decoder does not look at but the encoder must set)
 	encLayout []string
@@ -205,6 +208,25 @@ func encVsSpec(u *unitSpec, res *bits.EncResult) (checked int, bad []string) {
 	}
 	if res.Clobber {
 		bad = append(bad, "the encoder writes at an offset the analysis cannot place")
+	}
+	// variable-length tails start where the layout says
+	for _, want := range u.tails {
+		i := strings.Index(want, ": ")
+		off, field := want[:i], want[i+2:]
+		found := ""
+		for _, t := range res.Tails {
+			j := strings.Index(t, ": ")
+			if j >= 0 && (t[j+2:] == field || strings.HasSuffix(t[j+2:], "."+field)) {
+				found = t[:j]
+			}
+		}
+		checked++
+		switch {
+		case found == "":
+			bad = append(bad, fmt.Sprintf("the octets of %s are not copied to the wire as one run (expected from offset %s)", field, off))
+		case found != off:
+			bad = append(bad, fmt.Sprintf("the octets of %s start at offset %s, %s says %s", field, found, u.rfc, off))
+		}
 	}
 	if !u.partial {
 		// every written bit must be owned by the layout
@@ -411,15 +433,15 @@ var layoutUnits = []*unitSpec{
 		layout: []string{"@0 1 0 Padding:1 Count:5 Type:8 Length:16"}},
 	{name: "ReceptionReport", rfc: "RFC 3550 6.4.1 (report block)", enc: "ReceptionReport.Marshal", dec: "*ReceptionReport.Unmarshal",
 		layout: []string{"@0 SSRC:32 FractionLost:8 TotalLost:24 LastSequenceNumber:32 Jitter:32 LastSenderReport:32 Delay:32"}},
-	{name: "SenderReport", rfc: "RFC 3550 6.4.1", enc: "SenderReport.Marshal", dec: "*SenderReport.Unmarshal", partial: true,
+	{name: "SenderReport", rfc: "RFC 3550 6.4.1", enc: "SenderReport.Marshal", dec: "*SenderReport.Unmarshal", partial: true, tails: []string{"24len(Reports)+28: ProfileExtensions"},
 		layout: []string{"@0 1 0 0 len(Reports):5 c:0xC8 _:16", "@4 SSRC:32 NTPTime:64 RTPTime:32 PacketCount:32 OctetCount:32", "@24i+28 " + rrBlock}},
-	{name: "ReceiverReport", rfc: "RFC 3550 6.4.2", enc: "ReceiverReport.Marshal", dec: "*ReceiverReport.Unmarshal", partial: true,
+	{name: "ReceiverReport", rfc: "RFC 3550 6.4.2", enc: "ReceiverReport.Marshal", dec: "*ReceiverReport.Unmarshal", partial: true, tails: []string{"24len(Reports)+8: ProfileExtensions"},
 		layout: []string{"@0 1 0 0 len(Reports):5 c:0xC9 _:16", "@4 SSRC:32", "@24i+8 " + rrBlock}},
-	{name: "Goodbye", rfc: "RFC 3550 6.6", enc: "Goodbye.Marshal", dec: "", partial: true,
+	{name: "Goodbye", rfc: "RFC 3550 6.6", enc: "Goodbye.Marshal", dec: "", partial: true, tails: []string{"4len(Sources)+5: Reason"},
 		layout: []string{"@0 1 0 0 len(Sources):5 c:0xCB _:16", "@4i+4 Sources[]:32"}},
-	{name: "SourceDescriptionItem", rfc: "RFC 3550 6.5 (SDES item)", enc: "SourceDescriptionItem.Marshal", dec: "", partial: true,
+	{name: "SourceDescriptionItem", rfc: "RFC 3550 6.5 (SDES item)", enc: "SourceDescriptionItem.Marshal", dec: "", partial: true, tails: []string{"2: Text"},
 		layout: []string{"@0 Type:8 _:8"}},
-	{name: "ApplicationDefined", rfc: "RFC 3550 6.7", enc: "ApplicationDefined.Marshal", dec: "*ApplicationDefined.Unmarshal", partial: true,
+	{name: "ApplicationDefined", rfc: "RFC 3550 6.7", enc: "ApplicationDefined.Marshal", dec: "*ApplicationDefined.Unmarshal", partial: true, tails: []string{"12: Data"},
 		layout: []string{"@0 1 0 _:1 SubType:5 c:0xCC _:16", "@4 SSRC:32"}},
 	{name: "TransportLayerNack", rfc: "RFC 4585 6.2.1", enc: "TransportLayerNack.Marshal", dec: "*TransportLayerNack.Unmarshal",
 		layout: []string{"@0 1 0 0 c5:1 c:0xCD _:16", "@4 SenderSSRC:32 MediaSSRC:32", "@4i+12 Nacks[].PacketID:16 Nacks[].LostPackets:16"}},
